@@ -868,3 +868,28 @@ impl TracedUsize {
         self.0.compare_exchange(cur, new, s, f)
     }
 }
+
+// ------------------------------------------------------------------------------------------------
+// Factory support: the harness registers a projection of its job keys / job messages to numbers so
+// that cfg-only snapshots of generic factory state can name the jobs they hold
+// ------------------------------------------------------------------------------------------------
+
+type Tagger = fn(&dyn std::any::Any) -> i64;
+static TAGGER: Lazy<Mutex<Option<Tagger>>> = Lazy::new(|| Mutex::new(None));
+
+/// Register the projection used by `tag`
+pub fn set_tagger(f: Tagger) {
+    *TAGGER.lock().unwrap_or_else(|e| e.into_inner()) = Some(f);
+}
+
+/// Number standing for a job key or a job message (-1 when no projection is registered)
+pub fn tag(v: &dyn std::any::Any) -> i64 {
+    let f = *TAGGER.lock().unwrap_or_else(|e| e.into_inner());
+    f.map(|f| f(v)).unwrap_or(-1)
+}
+
+/// `[a,b,c]`
+pub fn json_list(v: &[i64]) -> String {
+    let items: Vec<String> = v.iter().map(|x| x.to_string()).collect();
+    format!("[{}]", items.join(","))
+}
